@@ -237,11 +237,25 @@ fn scaling_check(
         }
         let ts = best(ep, small);
         let limit = ts * 10 + std::time::Duration::from_millis(3);
-        if tl > limit {
+        // the small delivery may be refused at a glance where the large one is not (a different
+        // carrier, an early syntax error): growth only counts when the large delivery also costs
+        // well beyond what plainly parsing it costs
+        let plain = {
+            let mut b = std::time::Duration::from_secs(3600);
+            for _ in 0..3 {
+                let t = CpuInstant::now();
+                let _ = guarded(|| deep_parse(large, 0));
+                b = b.min(t.elapsed());
+            }
+            b
+        };
+        if tl > limit && tl > plain * 4 + std::time::Duration::from_millis(3) {
             // once more, to be sure
             let tl2 = best(ep, large).min(tl);
             let ts2 = best(ep, small).max(ts);
-            if tl2 > ts2 * 10 + std::time::Duration::from_millis(3) {
+            if tl2 > ts2 * 10 + std::time::Duration::from_millis(3)
+                && tl2 > plain * 4 + std::time::Duration::from_millis(3)
+            {
                 return Some(Violation::new(
                     "C01.slow",
                     format!(
@@ -341,16 +355,50 @@ fn recipients_followup(
     Ok(())
 }
 
+/// Comparison with values that are NOT equal to the decoded one: its hand-modified copies, and
+/// what the same entry point makes of the delivered item changed in one place (nearly equal
+/// values are the ones a comparison looks at longest).  Not part of the timed follow-ups: most of
+/// the work here (building the other values) is the harness's own.
+fn comparisons(
+    st: &mut RunStats,
+    ep: &Endpoint,
+    d: &Decoded,
+    bytes: &[u8],
+) -> Result<(), Violation> {
+    let len = bytes.len();
+    if len <= 4096 {
+        for (_, v) in d.variants() {
+            op(st, "eq(variant)", ep.name, len, || {
+                let _ = (*d == v, v == *d);
+            })?;
+        }
+        if let Ok(item) = crate::refcbor::read_exact(bytes) {
+            let mut rng = Rng::from_u64(crate::util::hash_bytes(bytes) ^ crate::rng::tag(ep.name));
+            for _ in 0..6 {
+                let near = crate::refcbor::encode(&crate::refcbor::near_copy(&mut rng, &item, 0));
+                if let Ok(Ok(n)) = guarded(|| (ep.decode)(&near)) {
+                    st.inc("probe:compared-with-a-nearly-equal-accepted-value");
+                    op(st, "eq(near)", ep.name, len, || {
+                        let _ = (*d == n, n == *d);
+                    })?;
+                }
+            }
+        }
+    }
+    Ok(())
+}
+
 /// Follow-up operations on an accepted value.
 fn followups(
     st: &mut RunStats,
     ep: &Endpoint,
     d: &Decoded,
-    len: usize,
+    bytes: &[u8],
     aad: &[u8],
     payload: &[u8],
     ok: bool,
 ) -> Result<(), Violation> {
+    let len = bytes.len();
     let handed = len + aad.len() + payload.len();
     // clone, compare, re-encode, drop
     let c = op(st, "clone", ep.name, len, || d.clone())?;
@@ -647,7 +695,7 @@ impl Engine for C01 {
         let bytes = t
             .steps
             .iter()
-            .find(|s| s.kind == "deliver")
+            .find(|s| s.kind == "deliver" && s.name != "small")
             .ok_or_else(|| HarnessError("no deliver step".into()))?
             .bytes(0)?
             .to_vec();
@@ -754,7 +802,7 @@ impl Engine for C01 {
                         }
                     }
                     let t1 = CpuInstant::now();
-                    if let Err(v) = followups(st, ep, &d, bytes.len(), &aad, &payload, ok) {
+                    if let Err(v) = followups(st, ep, &d, &bytes, &aad, &payload, ok) {
                         return Ok(Some(v));
                     }
                     let handed = bytes.len() + aad.len() + payload.len();
@@ -769,10 +817,12 @@ impl Engine for C01 {
                         FOLLOWUP_FACTOR,
                         el,
                         || {
-                            let _ =
-                                followups(&mut scratch, ep, &d, bytes.len(), &aad, &payload, ok);
+                            let _ = followups(&mut scratch, ep, &d, &bytes, &aad, &payload, ok);
                         },
                     ) {
+                        return Ok(Some(v));
+                    }
+                    if let Err(v) = comparisons(st, ep, &d, &bytes) {
                         return Ok(Some(v));
                     }
                     if let Err(v) = op(st, "drop", ep.name, bytes.len(), move || drop(d)) {
